@@ -26,7 +26,14 @@ import (
 	"verif/mc/rewrite"
 )
 
-const repoDir = "/repo"
+// repoDir is /repo. VERIF_REPO_DIR points the checks at another copy of the library (used only by
+// tools/seedcheck.py to run the checks against a scratch worktree with a seeded change; never by MANIFEST commands).
+var repoDir = func() string {
+	if d := os.Getenv("VERIF_REPO_DIR"); d != "" {
+		return d
+	}
+	return "/repo"
+}()
 
 // verifDir is the root of the verification tree: the parent of the directory
 // holding this executable (bin/vcheck), so that a snapshot of /verif elsewhere
@@ -479,6 +486,21 @@ func buildWorker(bdir string, b build) (string, error) {
 	}
 	bin := filepath.Join(bdir, "worker-"+b.Name)
 	args := []string{"build", "-overlay", ov, "-tags", b.Tags, "-o", bin}
+	if repoDir != "/repo" {
+		// a go.mod whose replace directive points at the other copy
+		mf := filepath.Join(odir, "go.mod")
+		gm, err := os.ReadFile(filepath.Join(verifDir, "go.mod"))
+		if err != nil {
+			return "", err
+		}
+		if err := os.WriteFile(mf, []byte(strings.ReplaceAll(string(gm), "=> /repo", "=> "+repoDir)), 0o644); err != nil {
+			return "", err
+		}
+		if gs, err := os.ReadFile(filepath.Join(verifDir, "go.sum")); err == nil {
+			_ = os.WriteFile(filepath.Join(odir, "go.sum"), gs, 0o644)
+		}
+		args = append(args, "-modfile", mf)
+	}
 	if b.Race {
 		args = append(args, "-race")
 	}
